@@ -1384,10 +1384,14 @@ package memberlist
 //@   ensures inj [C07]: old(injective(nodes)) ==> injective(nodes)
 //@   ensures tail [C02,C03,C07]: forall x int :: result <= x && x < len(nodes) ==> dol(nodes[x].State)
 
+// shuffleNodes: proved against the assumed contract of math/rand.Shuffle (swap is called with 0 <= i, j < n only): every
+// swap keeps the list a rearrangement of what it was
 //@ func shuffleNodes(nodes)
-//@   trusted   // rand.Shuffle(n, swap) calls swap(i, j) with 0 <= i, j < n only: the slice is permuted in place
+//@   safety [C03,C07,C13,C20]
 //@   modular
 //@   assigns elems *nodeState
+//@   at call math/rand.Shuffle: iter-invariant elems [C03,C07]: forall x int :: 0 <= x && x < len(nodes) ==> exists y int :: 0 <= y && y < len(nodes) && nodes[x] == old(nodes[y])
+//@   at call math/rand.Shuffle: iter-invariant inj [C03,C07]: old(injective(nodes)) ==> injective(nodes)
 //@   ensures elems: forall x int :: 0 <= x && x < len(nodes) ==> exists y int :: 0 <= y && y < len(nodes) && nodes[x] == old(nodes[y])
 //@   ensures inj: old(injective(nodes)) ==> injective(nodes)
 
